@@ -38,7 +38,7 @@ PROFILES = {
                            reorder=1, declare=2, undeclare=1, copy=3, dump=1, load=2,
                            sizes=3, fork=1),
                 flavors=['raw', 'autoref'], nv=(1, 6), steps=(20, 120),
-                m1_rate=0.15),
+                m1_rate=0.15, big_start=0.12),
     'C03': dict(weights=_w(quant=24, apply=18, ite=4, gc=3, swap=3, reorder=1, redo=8, probe=8), probe_second=['quant'],
                 flavors=['raw', 'autoref'], nv=(1, 7), steps=(15, 80), alloc_faults=True, alloc_focus='quant'),
     'C04': dict(weights=_w(let=24, apply=18, ite=4, gc=3, swap=3, reorder=1, redo=8, probe=8), probe_second=['let'],
@@ -195,6 +195,7 @@ def _make_cfg(prop, seed, tier='quick', idx=0):
                     if P.get('alloc_faults') else 0.0),
         explicit_release=P.get('explicit_release', 0.0),
         alloc_focus=P.get('alloc_focus'),
+        big_start=(r.randrange(1, 1 << 30) if r.random() < P.get('big_start', 0.05) else None),
         sift_tiny=bool(P.get('sift_tiny')), doc_cases=doc_cases,
         line_mode=bool(P.get('line_mode')) and r.random() < P['line_mode'].get(tier, 0.0),
         ctor_perm=(r.randrange(1, 1 << 30) if r.random() < 0.15 else None),
